@@ -66,3 +66,9 @@ func VerifEventRequest(ev any) *model.PushRequest {
 func VerifEventDone(ev any) {
 	ev.(*Event).done()
 }
+
+// VerifC02ServerState is what the C02 harness needs to know that a real DiscoveryServer has come to
+// rest: tokens in the push semaphore, the push queue's tables, updates waiting in the push channel.
+func VerifC02ServerState(s *DiscoveryServer) (tokens int, queue VerifPushQueueSnapshot, pushChannelLen int) {
+	return len(s.concurrentPushLimit), s.pushQueue.VerifSnapshot(), len(s.pushChannel)
+}
